@@ -100,3 +100,8 @@
 ;@heap followsX LOG_preMD LOG_preMV LOG_preMC LOG_preOut LOG_preErr LOG_preFlag LOG_postMD LOG_postMV LOG_postMC LOG_postOut LOG_postErr LOG_postFlag
 (define-fun stateIsPostX ((cMD (Array Int (Array Str Bool))) (cMV (Array Int (Array Str Val))) (cMC (Array Int Int)) (cOut Int) (cErr Int) (cFlag Bool) (lMD (Array Int (Array Int (Array Str Bool)))) (lMV (Array Int (Array Int (Array Str Val)))) (lMC (Array Int (Array Int Int))) (lOut (Array Int Int)) (lErr (Array Int Int)) (lFlag (Array Int Bool)) (k Int)) Bool (and (= cMD (select lMD k)) (= cMV (select lMV k)) (= cMC (select lMC k)) (= cOut (select lOut k)) (= cErr (select lErr k)) (= cFlag (select lFlag k))))
 ;@heap stateIsPostX MD_Str_Val MV_Str_Val MC_Str_Val G_io_OutN G_io_ErrN G_utils_HadRuntimeError LOG_postMD LOG_postMV LOG_postMC LOG_postOut LOG_postErr LOG_postFlag
+; variants that ignore the object heap (an object literal fills its private map between events)
+(define-fun followsY ((aEV (Array Int (Array Int (Array Int Val)))) (aOut (Array Int Int)) (aErr (Array Int Int)) (aFlag (Array Int Bool)) (bEV (Array Int (Array Int (Array Int Val)))) (bOut (Array Int Int)) (bErr (Array Int Int)) (bFlag (Array Int Bool)) (k Int)) Bool (and (= (select aEV k) (select bEV (- k 1))) (= (select aOut k) (select bOut (- k 1))) (= (select aErr k) (select bErr (- k 1))) (= (select aFlag k) (select bFlag (- k 1)))))
+;@heap followsY LOG_preEV LOG_preOut LOG_preErr LOG_preFlag LOG_postEV LOG_postOut LOG_postErr LOG_postFlag
+(define-fun stateIsPostY ((cEV (Array Int (Array Int Val))) (cOut Int) (cErr Int) (cFlag Bool) (lEV (Array Int (Array Int (Array Int Val)))) (lOut (Array Int Int)) (lErr (Array Int Int)) (lFlag (Array Int Bool)) (k Int)) Bool (and (= cEV (select lEV k)) (= cOut (select lOut k)) (= cErr (select lErr k)) (= cFlag (select lFlag k))))
+;@heap stateIsPostY E_Val G_io_OutN G_io_ErrN G_utils_HadRuntimeError LOG_postEV LOG_postOut LOG_postErr LOG_postFlag
